@@ -206,20 +206,22 @@ func (this *badgerWAL) Save(hardState raftpb.HardState, entries []raftpb.Entry, 
 	batch := this.db.NewWriteBatch()
 	defer batch.Cancel()
 
+	if !etcdRaft.IsEmptySnap(snapshot) {
+		// Delete the log first so that the snapshot's dummy entry
+		// written below is not deleted again by the same batch
+		if err := this.deleteEntriesFromIndex(batch, 0); err != nil {
+			return err
+		}
+		if err := this.writeSnapshot(batch, snapshot); err != nil {
+			return err
+		}
+		this.cache.Store(cacheLastIndexKey, snapshot.Metadata.Index)
+	}
 	if err := this.writeEntries(batch, entries); err != nil {
 		return err
 	}
 	if err := this.writeHardState(batch, hardState); err != nil {
 		return err
-	}
-	if !etcdRaft.IsEmptySnap(snapshot) {
-		if err := this.writeSnapshot(batch, snapshot); err != nil {
-			return err
-		}
-		// Delete the log
-		if err := this.deleteEntriesFromIndex(batch, 0); err != nil {
-			return err
-		}
 	}
 
 	return batch.Flush()
